@@ -173,6 +173,10 @@ func (t *Topic) DeleteExistingChannel(channelName string) error {
 		go t.deleter.Do(func() { t.deleteCallback(t) })
 	}
 
+	if !channel.ephemeral && !t.ephemeral {
+		t.nsqd.persistAfterDelete()
+	}
+
 	return nil
 }
 
